@@ -480,9 +480,13 @@ pub fn strategy(tier: Tier) -> BoxedStrategy<OpCase> {
 /// polling schedules for the supersede rule: steps <= 250 ms, horizon beyond a few expiries
 pub fn supersede_strategy() -> BoxedStrategy<OpCase> {
     let obj = gen::ObjOpts { max_size: 100, allow_stream: false, rich_meta: false, allow_cenc: false, ..Default::default() };
-    (ops_strategy(OpsOpts { max_ops: 4, obj, timing: false, removal: false, tail_rounds: 0, ..Default::default() }), prop_oneof![Just(1u64), Just(2), Just(5), Just(10), Just(11), Just(30), Just(31), 1u64..45], proptest::collection::vec(prop_oneof![Just(250_000u64), Just(100_000), 1_000u64..250_000], 8), any::<bool>())
-        .prop_map(|(mut c, dur, steps, carousel)| {
+    (ops_strategy(OpsOpts { max_ops: 4, obj, timing: false, removal: false, tail_rounds: 0, ..Default::default() }), prop_oneof![Just(1u64), Just(2), Just(5), Just(10), Just(11), Just(30), Just(31), 1u64..45], proptest::collection::vec(prop_oneof![Just(250_000u64), Just(100_000), 1_000u64..250_000], 8), any::<bool>(), prop_oneof![3 => Just(false), 1 => Just(true)])
+        .prop_map(|(mut c, dur, steps, carousel, complete)| {
             c.sender.fdt_duration_s = dur;
+            // a complete FDT (set_complete before the publication) must be renewed like any other
+            if complete {
+                c.ops.push(Op::SetComplete);
+            }
             // keep an object alive over the horizon so that the session is not idle
             for op in c.ops.iter_mut() {
                 if let Op::Add(o) = op {
